@@ -316,10 +316,24 @@ func testdataStreams(c *Ctx) {
 	}
 }
 
+// coqEmitted: bytes computed inside Coq by Vp8FrameRT.emit_key_frame for Vp8NoDrift.ex_frame (the
+// witness of the frame round-trip theorems: syntax emitter + Go boolean-encoder model + layout):
+// the Go decoder must read them as the specification does.
+func coqEmitted(c *Ctx) {
+	b, err := hex.DecodeString("3001009d012a10001000028050000011860000fdefcff110cffe2d50e000")
+	if err != nil {
+		panic(err)
+	}
+	c.Count("coq-emitted-frame")
+	c.Nontrivial("coq-emitted:ex_frame")
+	checkStream(c, "coqemit:ex_frame", b, true)
+}
+
 func main() {
 	Main("c04", func(c *Ctx) {
 		c.D.Rule = "Go lossy.DecodeFrame planes (before and after the loop filter) = extracted Vp8Spec.decode planes, bit-exact, on encoder outputs, testdata files and foreign streams; kernels vs their definitions"
 		testdataStreams(c)
+		coqEmitted(c)
 		encoderStreams(c)
 		foreignStreams(c)
 		kernelCases(c)
